@@ -30,7 +30,8 @@ CHECKS.update({
         text=('Decides saturation thresholds, small-value branches, sign handling and narrow-width forwarding of from_*/to_* integer conversions per control-determinate cell. '
               'General-path rounding not decided.'), design='4/C07'),
     'C08': dict(level='other', technique='abstract interpretation of MIR per source-format cell vs exact oracle',
-        text=('Decides zero/NaR preservation and saturation thresholds of the six width conversions (both spellings). Narrowing rounding between thresholds not decided.'), design='4/C08'),
+        text=('The three widening conversions are proved exact for every bit pattern by bit-routing equality per regime cell; zero/NaR preservation and saturation thresholds of all six conversions (both spellings) per cell. '
+              'Narrowing rounding between thresholds not decided.'), design='4/C08'),
 })
 
 CHECKS.update({
@@ -48,6 +49,22 @@ CHECKS.update({
         text=('eq/cmp/lt/le/gt/ge/min/max/clamp, derived PartialEq/PartialOrd/Ord, Float::max/min, neg, abs, signum, copysign, is_sign_*, is_zero, is_nar/is_nan/is_finite, classify '
               'for P8E0/P16E1/P32E2 and the comparison fns + Neg of PxE1/PxE2 are evaluated exactly on a partition of all argument tuples; every obligation is discharged and the result '
               '(an argument, its negation or a constant) agrees with the order of the represented reals.'), design='4/C10'),
+})
+
+CHECKS.update({
+    'C03': dict(level='proof', technique='bit-level abstract interpretation (symbolic bit-vector routing) per regime cell partitioning all encodings',
+        text=('to_f32/to_f64 of P8E0 and P16E1 and to_f64 of P32E2 are proved exact for every bit pattern: on each regime cell (sign x regime run x exponent bits, fraction bits symbolic) the result is '
+              'bit-for-bit the specified routing; zero/NaR cells; P32E2::to_f32 = `to_f64() as f32`; Display/FromStr wiring through f64. The float/text round-trip identities additionally need C02 on the general path and are NOT claimed.'),
+        design='4/C03'),
+    'C04': dict(level='other', technique='abstract interpretation on accumulator-state x operand cells, term-mode expansion of operand spellings, dependence slices',
+        text=('is_zero/is_nar decided for every accumulator state (all limbs), to_posit returns 0/NaR exactly there; NaR stickiness and zero operands for all base spellings; every tuple/array `+=`/`-=` spelling expands to the '
+              'expected products with the expected sign; accumulated value depends on flag, operands, accumulator. Exact product placement / carries / single rounding NOT decided.'), design='4/C04'),
+    'C12': dict(level='other', technique='term-mode evaluation + state-cell abstract interpretation + bit routing per regime cell',
+        text=('from_bits(to_bits(q)) = q, clear(), neg() on every zero/non-zero limb pattern (incl. 512-bit Q32E2), the to_posit / -= alternation of into_two/three_posits, From<P> for Q = ZERO += (p, ONE); '
+              'Q8E0 posit->quire->posit proved the identity for all patterns, Q16E1 for 104 of 110 regime cells. Exactness of the subtractions inside the split and the Q32E2 round trip NOT decided.'), design='4/C12'),
+    'C18': dict(level='proof', technique='term-mode abstract interpretation with a formal-polynomial domain over the generic default bodies',
+        text=('poly1..poly18, poly3a, poly4a denote sum c[i]*x^(n-i) with exactly the documented rounded powers (x*x, x2*x, x2*x2) and quire stages; the three posit types use the default bodies. '
+              'Assumes a quire stage is the exact sum rounded once (C04) and * is the rounded product (C01).'), design='4/C18'),
 })
 
 NOT_APPLICABLE = {
